@@ -87,7 +87,7 @@ class C01(Monitor):
 
     def finish(self):
         ctx = self.ctx
-        if not ctx.fault_free or self.prop != "C01":
+        if not ctx.clean_run() or self.prop != "C01":
             return
         for sub in ctx.subs.values():
             if sub.epoch != 0 or not is_fault_free_complete(ctx, sub) or sub.sc.mode != "hpc":
@@ -124,13 +124,18 @@ class C02(Monitor):
         if kind != "job_launch":
             return
         sub = self.ctx.sub_for_abs((d.get("env") or {}).get("JADE_RUNTIME_OUTPUT"))
-        if sub is None or sub.epoch != 0:
+        if sub is None:
             return
         name = d["name"]
         bs = sub.sc.blockers.get(name)
+        if sub.epoch > 0 and bs:
+            # resubmission epoch: the outcomes of the jobs being rerun were erased and must be
+            # recorded anew; blockers that are not rerun keep their old outcome (or, if they never
+            # had one and were not selected, are deliberately not waited for: C13's subject)
+            bs = [b for b in bs if b in sub.rerun_names]
         if not bs:
             return
-        have = state.names_with_rows(sub.out)
+        have = state.names_with_rows(sub.out, torn=any(f["kind"] == "write_fail" for f in self.w.faults.fired))
         self.checked += 1
         self.w.probe("launch_with_blockers")
         for b in bs:
@@ -186,7 +191,7 @@ class C03C04(Monitor):
 
     def finish(self):
         ctx = self.ctx
-        if not ctx.fault_free:
+        if not ctx.clean_run():
             return
         for sub in ctx.subs.values():
             if sub.epoch != 0 or sub.cancel_seq is not None:
@@ -240,6 +245,9 @@ class C03C04(Monitor):
                         self.bad("missing_result", "completed without faults but a job has no result entry",
                                  f"{label}: {n} (reference says {ref[n]})", "C03")
             for n in sc.names:
+                if "C04" in self.props and label == "processed_results.csv" and ref[n] == "canceled" and n not in by:
+                    self.bad("not_canceled", "flagged job with failed/canceled blocker was not canceled",
+                             f"{n}: no result at all after completion ({len(sub.launches.get(n, []))} launches)", "C04")
                 if n not in by or ref[n] in ("missing", "canceled_or_missing"):
                     continue
                 r = by[n][0]
@@ -311,10 +319,10 @@ class C05(Monitor):
                     st["removed"] = True
         elif kind == "exit":
             vp = self.w.vprocs[vpid]
-            if vp.tags.get("user_cmd") == "recovery" and self.ctx.fault_free:
+            if vp.tags.get("user_cmd") == "recovery" and self.ctx.clean_run():
                 self._check_recovery(vp, seq)
             st = self.rounds.get(vpid)
-            if st and st["touched"] and st["removed"] and d.get("rc") == 0 and self.ctx.fault_free:
+            if st and st["touched"] and st["removed"] and d.get("rc") == 0 and self.ctx.clean_run():
                 self._check_no_needless_wait(vp, seq)
 
     def _lock_timeouts(self):
@@ -379,7 +387,7 @@ class C05(Monitor):
             self.bad("complete_before_summary", "completion flag set before the results summary was written",
                      f"is_complete at seq {seq}, results.json written at {rseq} (epoch {ep})")
             return
-        if self.ctx.fault_free and sub.cancel_seq is None:
+        if self.ctx.clean_run() and sub.cancel_seq is None:
             try:
                 rj = state.read_json(os.path.join(sub.out, "results.json"))
             except state.Unparsable as e:
@@ -771,7 +779,7 @@ class C16(Monitor):
     def finish(self):
         ctx = self.ctx
         w = self.w
-        if not ctx.fault_free:
+        if not ctx.clean_run():
             return
         for sub in ctx.subs.values():
             sc = sub.sc
@@ -1016,7 +1024,7 @@ class C20(Monitor):
                     self.bad("summary_unparsable", "results.json does not parse", str(e))
                 continue
             self._tally(sub, rj)
-            if ctx.fault_free and is_fault_free_complete(ctx, sub) or (sub.sc.mode == "local" and ctx.fault_free):
+            if ctx.clean_run() and (is_fault_free_complete(ctx, sub) or sub.sc.mode == "local"):
                 self._events(sub)
                 self._stats(sub)
 
@@ -1197,7 +1205,7 @@ class C08World(Monitor):
 
     def finish(self):
         ctx = self.ctx
-        if not ctx.fault_free:
+        if not ctx.clean_run():
             return
         for sub in ctx.subs.values():
             if sub.epoch != 0 or not is_fault_free_complete(ctx, sub):
